@@ -63,7 +63,10 @@ def mesh_of(df, m, emb, dims=None, units=None, flip=None, bc="", subregions=None
         n = list(n)
     elif form == 2:
         n = np.array(n)
-    return df.Mesh(region=reg, n=n, bc=bc, subregions=subregions)
+    mesh = df.Mesh(region=reg, n=n, bc=bc, subregions=subregions)
+    from . import fld
+    fld.disown(subregions)   # the input Region objects remain the caller's: moving them must not move the mesh's
+    return mesh
 
 
 def box_region(df, b, emb, **kw):
